@@ -64,6 +64,9 @@ func (m *vestMachine) commonClasses() (cl []string) {
 	if m.typesRemoved > 0 {
 		cl = append(cl, "vesting_type_removed_while_pools_name_it")
 	}
+	if m.manyPools > 0 {
+		cl = append(cl, "owner_with_35_to_300_pools")
+	}
 	cl = append(cl, m.v.TxClasses()...)
 	return cl
 }
